@@ -26,6 +26,7 @@
 #include <unistd.h>
 #include <sys/mman.h>
 #include <cpuid.h>
+#include <pthread.h>
 
 #include "skinny128-cipher.h"
 #include "skinny64-cipher.h"
@@ -57,12 +58,12 @@ typedef struct {
     int live;
 } Blk;
 
-static Blk blks[MAXBLK];
-static int nblk;
-static int in_lib;           /* only library calls are tracked */
-static int fail_next;        /* fail the next calloc made by the library */
-static int c_na, c_nf, c_nz, c_badfree, c_fz;   /* per-call counters */
-static int live_blocks;
+static __thread Blk blks[MAXBLK];
+static __thread int nblk;
+static __thread int in_lib;           /* only library calls are tracked */
+static __thread int fail_next;        /* fail the next calloc made by the library */
+static __thread int c_na, c_nf, c_nz, c_badfree, c_fz;   /* per-call counters */
+static __thread int live_blocks;
 
 void *__real_calloc(size_t, size_t);
 void __real_free(void *);
@@ -134,8 +135,8 @@ static void release_all_blocks(void)
 #define NARENA 5
 #define ADATA (8 * PAGE)
 enum { A_IN = 0, A_OUT = 1, A_KEY = 2, A_AUX = 3, A_TW = 4 };
-static uint8_t *arena[NARENA];
-static uint8_t *snap[NARENA];
+static __thread uint8_t *arena[NARENA];
+static __thread uint8_t *snap[NARENA];
 
 static void arenas_init(void)
 {
@@ -191,7 +192,7 @@ static long arenas_stray(const uint8_t *out, size_t outlen)
 /* ------------------------------------------------------------------ */
 /* Stack painting and register garbage                                 */
 
-static int paint = -1;       /* -1: off, else byte value; 256: ramp */
+static __thread int paint = -1;       /* -1: off, else byte value; 256: ramp */
 
 static void __attribute__((noinline)) paint_stack(void)
 {
@@ -221,9 +222,9 @@ __attribute__((naked)) static int call1_garbage(void *fn, void *arg, unsigned lo
 /* Command parsing                                                     */
 
 #define MAXTOK 32
-static char *tok_k[MAXTOK], *tok_v[MAXTOK];
-static int ntok;
-static char opname[64];
+static __thread char *tok_k[MAXTOK], *tok_v[MAXTOK];
+static __thread int ntok;
+static __thread char opname[64];
 
 static const char *arg(const char *k)
 {
@@ -263,8 +264,8 @@ static size_t hexbytes(const char *v, uint8_t *out, size_t max)
 /* ------------------------------------------------------------------ */
 /* JSON output                                                         */
 
-static char *jb;
-static size_t jcap, jlen;
+static __thread char *jb;
+static __thread size_t jcap, jlen;
 static void jput(const char *s)
 {
     size_t n = strlen(s);
@@ -272,7 +273,7 @@ static void jput(const char *s)
     memcpy(jb + jlen, s, n + 1);
     jlen += n;
 }
-static int jfirst;
+static __thread int jfirst;
 static void jbegin(const char *e) { jlen = 0; jput("{\"e\":\""); jput(e); jput("\""); jfirst = 0; }
 static void jkey(const char *k) { jput(",\""); jput(k); jput("\":"); }
 static void jint(const char *k, long v) { char t[32]; jkey(k); snprintf(t, sizeof t, "%ld", v); jput(t); }
@@ -298,23 +299,24 @@ static void jlen_capped(const char *k, unsigned long v)
        which is far outside every accepted range (classification preserved) */
     jint(k, v > 2147483647ul ? 2147483647l : (long)v);
 }
-static void jend(void) { jput("}\n"); fputs(jb, stdout); fflush(stdout); }
+static __thread FILE *outf;
+static void jend(void) { jput("}\n"); fputs(jb, outf ? outf : stdout); fflush(outf ? outf : stdout); }
 
 /* ------------------------------------------------------------------ */
 /* Objects                                                             */
 
 #define NOBJ 8
-static Skinny128Key_t k128[NOBJ];
-static Skinny64Key_t k64[NOBJ];
-static Skinny128TweakedKey_t t128[NOBJ];
-static Skinny64TweakedKey_t t64[NOBJ];
-static MantisKey_t mk[NOBJ];
-static Skinny128CTR_t c128[NOBJ];
-static Skinny64CTR_t c64[NOBJ];
-static MantisCTR_t cm[NOBJ];
-static Skinny128ParallelECB_t p128[NOBJ];
-static Skinny64ParallelECB_t p64[NOBJ];
-static MantisParallelECB_t pm[NOBJ];
+static __thread Skinny128Key_t k128[NOBJ];
+static __thread Skinny64Key_t k64[NOBJ];
+static __thread Skinny128TweakedKey_t t128[NOBJ];
+static __thread Skinny64TweakedKey_t t64[NOBJ];
+static __thread MantisKey_t mk[NOBJ];
+static __thread Skinny128CTR_t c128[NOBJ];
+static __thread Skinny64CTR_t c64[NOBJ];
+static __thread MantisCTR_t cm[NOBJ];
+static __thread Skinny128ParallelECB_t p128[NOBJ];
+static __thread Skinny64ParallelECB_t p64[NOBJ];
+static __thread MantisParallelECB_t pm[NOBJ];
 
 static void objects_zero(void)
 {
@@ -324,6 +326,16 @@ static void objects_zero(void)
     memset(c128, 0, sizeof c128); memset(c64, 0, sizeof c64); memset(cm, 0, sizeof cm);
     memset(p128, 0, sizeof p128); memset(p64, 0, sizeof p64); memset(pm, 0, sizeof pm);
 }
+
+/* Objects shared read-only between threads (C18): a copy of the main thread's
+   objects number 7, placed in a page that is made PROT_READ before the threads
+   start; the parallel objects' heap contexts are made read-only as well */
+typedef struct {
+    Skinny128Key_t k128; Skinny64Key_t k64; MantisKey_t mk;
+    Skinny128ParallelECB_t p128; Skinny64ParallelECB_t p64; MantisParallelECB_t pm;
+} Shared;
+static Shared *shared;
+static int nthreads_mode;
 
 /* kind: "s128" | "s64" | "mantis" */
 static int kind_bs(const char *k) { return !strcmp(k, "s128") ? 16 : 8; }
@@ -354,8 +366,8 @@ static void log_mk(const MantisKey_t *ks)
 /* ------------------------------------------------------------------ */
 /* Crash recovery                                                      */
 
-static sigjmp_buf crash_jmp;
-static volatile int crash_armed;
+static __thread sigjmp_buf crash_jmp;
+static __thread volatile int crash_armed;
 static void on_crash(int sig)
 {
     if (crash_armed) siglongjmp(crash_jmp, sig);
@@ -400,7 +412,7 @@ static uint8_t *put(int a, const char *opt, const uint8_t *src, size_t len, size
     return p;
 }
 
-static uint8_t kb[8192], ib[ADATA], ob[ADATA], tb[ADATA];
+static __thread uint8_t kb[8192], ib[ADATA], ob[ADATA], tb[ADATA];
 
 static const char *be_name_ctr(const char *kind, const void *vt)
 {
@@ -439,6 +451,7 @@ static void echo_common(void)
     const char *k = arg("k"), *o = arg("o");
     if (k) jstr("k", k);
     if (o) { if (!strcmp(o, "null")) jint("o", -1); else jint("o", atol(o)); }
+    if (arg("sh")) jint("sh", argi("sh", 0));
 }
 
 /* ------------------------------------------------------------------ */
@@ -502,10 +515,10 @@ static void do_ks(void)
         if (arg("rr")) jint("rr", argi("rr", 0));
         call_begin();
         if (is128) {
-            Skinny128Key_t *ks = tweaked ? &t128[o].ks : &k128[o];
+            Skinny128Key_t *ks = argi("sh", 0) ? &shared->k128 : tweaked ? &t128[o].ks : &k128[o];
             WITH_RR(&ks->rounds, { if (enc) skinny128_ecb_encrypt(op, ip, ks); else skinny128_ecb_decrypt(op, ip, ks); });
         } else {
-            Skinny64Key_t *ks = tweaked ? &t64[o].ks : &k64[o];
+            Skinny64Key_t *ks = argi("sh", 0) ? &shared->k64 : tweaked ? &t64[o].ks : &k64[o];
             WITH_RR(&ks->rounds, { if (enc) skinny64_ecb_encrypt(op, ip, ks); else skinny64_ecb_decrypt(op, ip, ks); });
         }
         call_end();
@@ -579,7 +592,8 @@ static void do_mk(void)
         }
         if (arg("rr")) jint("rr", argi("rr", 0));
         call_begin();
-        WITH_RR(&mk[o].rounds, { if (tw) mantis_ecb_crypt_tweaked(op, ip, tp, &mk[o]); else mantis_ecb_crypt(op, ip, &mk[o]); });
+        MantisKey_t *mp = argi("sh", 0) ? &shared->mk : &mk[o];
+        WITH_RR(&mp->rounds, { if (tw) mantis_ecb_crypt_tweaked(op, ip, tp, mp); else mantis_ecb_crypt(op, ip, mp); });
         call_end();
         jbytes("out", op, 8);
         log_alloc(op, 8);
@@ -725,7 +739,8 @@ static void do_par(void)
     int onull = is_null("o");
     int o = onull ? 0 : (int)argi("o", 0);
     int ret = -1;
-    void *obj = onull ? NULL : (is128 ? (void *)&p128[o] : is64 ? (void *)&p64[o] : (void *)&pm[o]);
+    void *obj = onull ? NULL : argi("sh", 0) ? (is128 ? (void *)&shared->p128 : is64 ? (void *)&shared->p64 : (void *)&shared->pm)
+              : (is128 ? (void *)&p128[o] : is64 ? (void *)&p64[o] : (void *)&pm[o]);
     /* the three parallel handle structs have identical layout */
     Skinny128ParallelECB_t *h = (Skinny128ParallelECB_t *)obj;
 
@@ -906,18 +921,27 @@ static void do_env(void)
     jend();
 }
 
-int main(int argc, char **argv)
+static void do_share(void)
 {
-    FILE *f = argc > 1 ? fopen(argv[1], "r") : stdin;
-    static char line[1 << 20];
-    if (!f) { perror(argv[1]); return 2; }
-    arenas_init();
-    arenas_fill();
-    objects_zero();
+    /* copy the main thread's objects number 7 into a read-only page */
+    Shared *sh = mmap(NULL, 2 * PAGE, PROT_READ | PROT_WRITE, MAP_PRIVATE | MAP_ANONYMOUS, -1, 0);
+    if (sh == MAP_FAILED) { perror("mmap"); _exit(3); }
+    sh->k128 = k128[7]; sh->k64 = k64[7]; sh->mk = mk[7];
+    sh->p128 = p128[7]; sh->p64 = p64[7]; sh->pm = pm[7];
+    mprotect(sh, 2 * PAGE, PROT_READ);
+    for (int i = 0; i < nblk; i++)
+        if (blks[i].live && (blks[i].ptr == sh->p128.ctx || blks[i].ptr == sh->p64.ctx || blks[i].ptr == sh->pm.ctx))
+            mprotect(blks[i].map, blks[i].maplen, PROT_READ);
+    shared = sh;
+    jbegin("share"); jend();
+}
 
+static void install_handlers(void)
+{
     struct sigaction sa;
-    static uint8_t altstack[1 << 16];
-    stack_t ss = { .ss_sp = altstack, .ss_size = sizeof altstack, .ss_flags = 0 };
+    stack_t ss;
+    ss.ss_sp = mmap(NULL, 1 << 16, PROT_READ | PROT_WRITE, MAP_PRIVATE | MAP_ANONYMOUS, -1, 0);
+    ss.ss_size = 1 << 16; ss.ss_flags = 0;
     sigaltstack(&ss, NULL);
     memset(&sa, 0, sizeof sa);
     sa.sa_handler = on_crash;
@@ -927,15 +951,20 @@ int main(int argc, char **argv)
     sigaction(SIGILL, &sa, NULL);
     sigaction(SIGFPE, &sa, NULL);
     sigaction(SIGABRT, &sa, NULL);
+}
 
+/* execute scenario lines [from, to) on the calling thread */
+static int run_lines(char **lines, int from, int to)
+{
     int skipping = 0;
-    while (fgets(line, sizeof line, f)) {
-        char *p = line;
+    for (int li = from; li < to; li++) {
+        char *line = strdup(lines[li]);
+        char *save = NULL;
         ntok = 0;
-        char *sp = strtok(p, " \t\r\n");
-        if (!sp || sp[0] == '#') continue;
+        char *sp = strtok_r(line, " \t\r\n", &save);
+        if (!sp || sp[0] == '#') { free(line); continue; }
         snprintf(opname, sizeof opname, "%s", sp);
-        while ((sp = strtok(NULL, " \t\r\n")) && ntok < MAXTOK) {
+        while ((sp = strtok_r(NULL, " \t\r\n", &save)) && ntok < MAXTOK) {
             char *eq = strchr(sp, '=');
             if (!eq) continue;
             *eq = 0;
@@ -952,11 +981,12 @@ int main(int argc, char **argv)
             objects_zero();
             arenas_fill();
 #ifdef SKINNY_C_VERIF
-            _skinny_verif_backend_cap = 2;
+            if (!nthreads_mode) _skinny_verif_backend_cap = 2;
 #endif
+            free(line);
             continue;
         }
-        if (skipping) continue;
+        if (skipping) { free(line); continue; }
         int sig = sigsetjmp(crash_jmp, 1);
         if (sig) {
             crash_armed = 0; in_lib = 0; fail_next = 0;
@@ -969,13 +999,75 @@ int main(int argc, char **argv)
             if (arg("paint")) paint = (int)argi("paint", -1);
         } else if (!strcmp(opname, "env")) do_env();
         else if (!strcmp(opname, "layout")) do_layout();
+        else if (!strcmp(opname, "share")) do_share();
         else if (!strcmp(opname, "quiesce")) { jbegin("quiesce"); jint("lv", live_blocks); jend(); }
         else if (!strncmp(opname, "ks_", 3)) do_ks();
         else if (!strncmp(opname, "mk_", 3)) do_mk();
         else if (!strncmp(opname, "ctr_", 4)) do_ctr();
         else if (!strncmp(opname, "par_", 4)) do_par();
-        else { fprintf(stderr, "drv: unknown op %s\n", opname); return 2; }
+        else { fprintf(stderr, "drv: unknown op %s\n", opname); _exit(2); }
         crash_armed = 0;
+        free(line);
     }
+    return 0;
+}
+
+typedef struct { char **lines; int from, to, id, base_live; char *buf; size_t len; } ThreadArg;
+
+static void *thread_main(void *p)
+{
+    ThreadArg *a = p;
+    outf = open_memstream(&a->buf, &a->len);
+    arenas_init();
+    arenas_fill();
+    objects_zero();
+    install_handlers();
+    live_blocks = a->base_live;     /* blocks owned by the objects of the prologue */
+    run_lines(a->lines, a->from, a->to);
+    fclose(outf);
+    outf = NULL;
+    return NULL;
+}
+
+int main(int argc, char **argv)
+{
+    FILE *f = argc > 1 ? fopen(argv[1], "r") : stdin;
+    static char line[1 << 20];
+    char **lines = NULL;
+    int n = 0, cap = 0, split = -1, nthreads = 0;
+    if (!f) { perror(argv[1]); return 2; }
+    while (fgets(line, sizeof line, f)) {
+        if (n == cap) { cap = cap ? cap * 2 : 1024; lines = realloc(lines, cap * sizeof *lines); }
+        if (!strncmp(line, "threads", 7) && split < 0) {
+            split = n;
+            const char *q = strstr(line, "n=");
+            nthreads = q ? atoi(q + 2) : 4;
+            continue;
+        }
+        lines[n++] = strdup(line);
+    }
+    arenas_init();
+    arenas_fill();
+    objects_zero();
+    install_handlers();
+    if (split < 0)
+        return run_lines(lines, 0, n);
+
+    /* prologue on the main thread, then the body on every thread concurrently */
+    nthreads_mode = 1;
+    run_lines(lines, 0, split);
+    ThreadArg *ta = calloc((size_t)nthreads, sizeof *ta);
+    pthread_t *th = calloc((size_t)nthreads, sizeof *th);
+    for (int i = 0; i < nthreads; i++) {
+        ta[i].lines = lines; ta[i].from = split; ta[i].to = n; ta[i].id = i;
+        ta[i].base_live = live_blocks;
+        pthread_create(&th[i], NULL, thread_main, &ta[i]);
+    }
+    for (int i = 0; i < nthreads; i++) {
+        pthread_join(th[i], NULL);
+        printf("{\"e\":\"thread\",\"id\":%d}\n", i);
+        fwrite(ta[i].buf, 1, ta[i].len, stdout);
+    }
+    fflush(stdout);
     return 0;
 }
